@@ -2,15 +2,15 @@ import JSight.Model.Build
 /-!
 C11 — ENUM declarations (`Build.checkRules`: model of `core/compile_core_rules.go collectRules / buildRule` and
 `Catalog.AddEnum`): of two top-level ENUM directives with one name the SECOND is never accepted, whatever stands before,
-between and after them; an ENUM with a body and without a name is refused; a forest whose ENUMs have pairwise distinct
-non-empty names passes the stage.
+between and after them; an ENUM without a name and (F70) an ENUM without a body are refused; a forest whose ENUMs have
+pairwise distinct non-empty names passes the stage.
 -/
 namespace JSight.C11E
 open JSight JSight.Build JSight.Gen
 
-/-- a top-level ENUM directive with a body and the name `n` -/
+/-- a top-level ENUM directive with the name `n` (with or without a body) -/
 def isEnumNamed (n : Bytes) (t : BTree) : Prop :=
-  t.dir.kind = .Enum ∧ t.dir.body.isSome = true ∧ t.dir.param "Name" = n
+  t.dir.kind = .Enum ∧ t.dir.param "Name" = n
 
 def isErr {α} : R α → Bool | .ok _ => false | .error _ => true
 
@@ -24,11 +24,16 @@ theorem later_refused (n : Bytes) (hn : n ≠ []) (b : BTree) (hb : isEnumNamed 
     ∀ (mid : List BTree) (seen : List Bytes), seen.contains n = true →
       isErr (checkRules (mid ++ b :: post) seen) = true
   | [], seen, hs => by
-    obtain ⟨hk, hbody, hname⟩ := hb
+    obtain ⟨hk, hname⟩ := hb
     simp only [List.nil_append]
     unfold checkRules
     have hm : n ∈ seen := by simpa using hs
-    simp [hk, hbody, hname, hn, hm, isErr, fail]
+    simp only [hk, hname, beq_self_eq_true, ↓reduceIte]
+    split
+    · simp [isErr, fail]
+    · split
+      · simp [isErr, fail]
+      · simp [hm, isErr, fail]
   | t :: mid, seen, hs => by
     simp only [List.cons_append]
     unfold checkRules
@@ -38,7 +43,9 @@ theorem later_refused (n : Bytes) (hn : n ≠ []) (b : BTree) (hb : isEnumNamed 
       · simp [isErr, fail]
       · split
         · simp [isErr, fail]
-        · exact later_refused n hn b hb post mid _ (contains_append_left _ hs)
+        · split
+          · simp [isErr, fail]
+          · exact later_refused n hn b hb post mid _ (contains_append_left _ hs)
     · exact later_refused n hn b hb post mid seen hs
 
 /-- **a second ENUM of one name is never accepted** -/
@@ -46,16 +53,18 @@ theorem duplicate_enum_rejected (n : Bytes) (hn : n ≠ []) (a b : BTree) (ha : 
     (post : List BTree) : ∀ (pre mid : List BTree) (seen : List Bytes),
       isErr (checkRules (pre ++ a :: mid ++ b :: post) seen) = true
   | [], mid, seen => by
-    obtain ⟨hk, hbody, hname⟩ := ha
+    obtain ⟨hk, hname⟩ := ha
     simp only [List.nil_append, List.cons_append]
     unfold checkRules
-    simp only [hk, hbody, hname]
-    simp only [beq_self_eq_true, Bool.and_self, ↓reduceIte]
+    simp only [hk, hname]
+    simp only [beq_self_eq_true, ↓reduceIte]
     split
     · simp [isErr, fail]
     · split
       · simp [isErr, fail]
-      · exact later_refused n hn b hb post mid _ (by simp)
+      · split
+        · simp [isErr, fail]
+        · exact later_refused n hn b hb post mid _ (by simp)
   | t :: pre, mid, seen => by
     simp only [List.cons_append]
     unfold checkRules
@@ -65,19 +74,21 @@ theorem duplicate_enum_rejected (n : Bytes) (hn : n ≠ []) (a b : BTree) (ha : 
       · simp [isErr, fail]
       · split
         · simp [isErr, fail]
-        · have := duplicate_enum_rejected n hn a b ha hb post pre mid (seen ++ [t.dir.param "Name"])
-          simpa [List.cons_append] using this
+        · split
+          · simp [isErr, fail]
+          · have := duplicate_enum_rejected n hn a b ha hb post pre mid (seen ++ [t.dir.param "Name"])
+            simpa [List.cons_append] using this
     · have := duplicate_enum_rejected n hn a b ha hb post pre mid seen
       simpa [List.cons_append] using this
 
-/-- an ENUM with a body and no name is refused -/
+/-- an ENUM without a name is refused -/
 theorem nameless_enum_rejected (a : BTree) (ha : isEnumNamed [] a) (post : List BTree) :
     ∀ (pre : List BTree) (seen : List Bytes), isErr (checkRules (pre ++ a :: post) seen) = true
   | [], seen => by
-    obtain ⟨hk, hbody, hname⟩ := ha
+    obtain ⟨hk, hname⟩ := ha
     simp only [List.nil_append]
     unfold checkRules
-    simp [hk, hbody, hname, isErr, fail]
+    simp [hk, hname, isErr, fail]
   | t :: pre, seen => by
     simp only [List.cons_append]
     unfold checkRules
@@ -87,8 +98,32 @@ theorem nameless_enum_rejected (a : BTree) (ha : isEnumNamed [] a) (post : List 
       · simp [isErr, fail]
       · split
         · simp [isErr, fail]
-        · exact nameless_enum_rejected a ha post pre _
+        · split
+          · simp [isErr, fail]
+          · exact nameless_enum_rejected a ha post pre _
     · exact nameless_enum_rejected a ha post pre seen
+
+/-- (F70) an ENUM without a body is refused, whatever its name -/
+theorem bodiless_enum_rejected (a : BTree) (hk : a.dir.kind = .Enum) (hb : a.dir.body = none) (post : List BTree) :
+    ∀ (pre : List BTree) (seen : List Bytes), isErr (checkRules (pre ++ a :: post) seen) = true
+  | [], seen => by
+    simp only [List.nil_append]
+    unfold checkRules
+    simp only [hk, beq_self_eq_true, ↓reduceIte, hb, Option.isNone_none]
+    split <;> simp [isErr, fail]
+  | t :: pre, seen => by
+    simp only [List.cons_append]
+    unfold checkRules
+    simp only
+    split
+    · split
+      · simp [isErr, fail]
+      · split
+        · simp [isErr, fail]
+        · split
+          · simp [isErr, fail]
+          · exact bodiless_enum_rejected a hk hb post pre _
+    · exact bodiless_enum_rejected a hk hb post pre seen
 
 /-! non-vacuity -/
 def en (id : Nat) (name : String) : BTree :=
@@ -100,5 +135,7 @@ def errOf : R Unit → Option BErr | .ok _ => none | .error e => some e
 example : errOf (checkRules [en 1 "@a", ty 2, en 3 "@b"] []) = none := by decide +kernel
 example : errOf (checkRules [en 1 "@a", ty 2, en 3 "@a"] []) = some ⟨3, .duplicateNames⟩ := by decide +kernel
 example : errOf (checkRules [en 1 "@a", en 2 ""] []) = some ⟨2, .required "Name"⟩ := by decide +kernel
+example : errOf (checkRules [en 1 "@a", .node { kind := .Enum, id := 5, named := [("Name", "@a".toUTF8.toList)] } []] []) =
+    some ⟨5, .emptyBody⟩ := by decide +kernel
 
 end JSight.C11E
